@@ -150,6 +150,331 @@ fn gen_matching_graph(rng: &mut Rng, directed: bool, max_n: usize) -> (AG, &'sta
     (ag, name)
 }
 
+// ---- large blossom families (up to 16 nodes, thorough 18; mostly 10..16): several Gabow searches
+// after the greedy start, blossoms through the search root, nested / asymmetric blossoms on short
+// stems, the same edge closing blossoms in different searches, searches that fail (deficient graphs),
+// augmentations that run through blossoms.  `pgharness C15STAT` (c15probe.rs) measures what they reach.
+
+fn odd_len(rng: &mut Rng) -> usize {
+    *rng.pick(&[3usize, 3, 5, 5, 5, 7, 7, 9])
+}
+
+/// hang `k` pendant paths (length 1, rarely 2) on random nodes; several leaves on one node make the
+/// graph deficient, so that some searches fail after having labelled every blossom around their root
+fn add_pendants(rng: &mut Rng, edges: &mut Vec<(usize, usize, i64)>, n: &mut usize, max_n: usize, k: usize) {
+    let mut hub = if *n > 0 { rng.below(*n) } else { 0 };
+    for _ in 0..k {
+        if *n >= max_n || *n == 0 {
+            break;
+        }
+        if rng.chance(55) {
+            hub = rng.below(*n);
+        }
+        edges.push((hub, *n, 1));
+        *n += 1;
+        if rng.chance(20) && *n < max_n {
+            edges.push((*n - 1, *n, 1));
+            *n += 1;
+        }
+    }
+}
+
+/// cactus of odd cycles: every new cycle shares a node with the part built so far or hangs on a
+/// short stem; then pendant nodes and a few chords (nested / overlapping blossoms)
+fn gen_cactus(rng: &mut Rng, max_n: usize) -> AG {
+    let budget = max_n - rng.below(4);
+    let AG { mut edges, mut n, .. } = gen_cactus_core(rng, budget);
+    let k = rng.below(4);
+    add_pendants(rng, &mut edges, &mut n, max_n, k);
+    for _ in 0..rng.below(3) {
+        let (a, b) = (rng.below(n), rng.below(n));
+        if a != b {
+            edges.push((a, b, 1));
+        }
+    }
+    AG { directed: false, n, edges }
+}
+
+fn gen_cactus_core(rng: &mut Rng, budget: usize) -> AG {
+    let mut edges = Vec::new();
+    let mut n = 0usize;
+    loop {
+        let len = odd_len(rng);
+        let stem = if n == 0 { 0 } else { *rng.pick(&[0usize, 0, 1, 1, 2]) };
+        if n + stem + len - (if n > 0 && stem == 0 { 1 } else { 0 }) > budget {
+            if n == 0 {
+                // at least one cycle
+                for i in 0..3 {
+                    edges.push((i, (i + 1) % 3, 1));
+                }
+                n = 3;
+            }
+            break;
+        }
+        if n == 0 {
+            for i in 0..len {
+                edges.push((i, (i + 1) % len, 1));
+            }
+            n = len;
+            continue;
+        }
+        let mut prev = rng.below(n);
+        for _ in 0..stem {
+            edges.push((prev, n, 1));
+            prev = n;
+            n += 1;
+        }
+        // cycle through `prev` with len-1 new nodes
+        let first = n;
+        edges.push((prev, first, 1));
+        for i in 0..len - 2 {
+            edges.push((first + i, first + i + 1, 1));
+        }
+        edges.push((first + len - 2, prev, 1));
+        n += len - 1;
+    }
+    AG { directed: false, n, edges }
+}
+
+/// flower: petals (odd cycles) through one centre or on stems of length 1..2 growing from it,
+/// the stems may carry pendant nodes; one or two chords inside the petals
+fn gen_flower(rng: &mut Rng, max_n: usize) -> AG {
+    let mut edges = Vec::new();
+    let mut n = 1usize; // the centre
+    let budget = max_n - rng.below(3);
+    for _ in 0..(2 + rng.below(3)) {
+        let len = odd_len(rng);
+        let stem = *rng.pick(&[0usize, 0, 1, 2]);
+        if n + stem + len - 1 > budget {
+            continue;
+        }
+        let mut prev = 0;
+        for _ in 0..stem {
+            edges.push((prev, n, 1));
+            prev = n;
+            n += 1;
+        }
+        let first = n;
+        edges.push((prev, first, 1));
+        for i in 0..len - 2 {
+            edges.push((first + i, first + i + 1, 1));
+        }
+        edges.push((first + len - 2, prev, 1));
+        n += len - 1;
+        if len >= 5 && rng.chance(40) {
+            // a chord that cuts an odd sub-cycle off the petal
+            let i = rng.below(len - 3);
+            edges.push((first + i, first + i + 2, 1));
+        }
+    }
+    let k = 1 + rng.below(4);
+    add_pendants(rng, &mut edges, &mut n, max_n, k);
+    AG { directed: false, n, edges }
+}
+
+/// odd-ear graph: a start cycle and ears (paths with an even number of new inner nodes between two
+/// existing nodes, or single chords): 2-connected pieces full of nested and overlapping blossoms;
+/// then pendant nodes
+fn gen_ears(rng: &mut Rng, max_n: usize) -> AG {
+    let budget = max_n - rng.below(4);
+    let AG { mut edges, mut n, .. } = gen_ears_core(rng, budget);
+    let k = rng.below(5);
+    add_pendants(rng, &mut edges, &mut n, max_n, k);
+    AG { directed: false, n, edges }
+}
+
+fn gen_ears_core(rng: &mut Rng, budget: usize) -> AG {
+    let mut edges = Vec::new();
+    let mut len = odd_len(rng);
+    while len > budget && len > 3 {
+        len -= 2;
+    }
+    for i in 0..len {
+        edges.push((i, (i + 1) % len, 1));
+    }
+    let mut n = len;
+    for _ in 0..(1 + rng.below(4)) {
+        let inner = *rng.pick(&[0usize, 1, 2, 2, 3, 4]);
+        if n + inner > budget {
+            continue;
+        }
+        let (a, b) = (rng.below(n), rng.below(n));
+        if a == b && inner < 2 {
+            continue;
+        }
+        let mut prev = a;
+        for _ in 0..inner {
+            edges.push((prev, n, 1));
+            prev = n;
+            n += 1;
+        }
+        edges.push((prev, b, 1));
+    }
+    AG { directed: false, n, edges }
+}
+
+/// factor-critical piece by an odd ear decomposition on the new nodes `base..`: a single node, or an
+/// odd cycle plus ears with an even number of inner nodes (0 = chord); returns the number of nodes used
+fn factor_critical(rng: &mut Rng, edges: &mut Vec<(usize, usize, i64)>, base: usize, room: usize, single_pct: u32) -> usize {
+    if room < 3 || rng.chance(single_pct) {
+        return 1;
+    }
+    let mut len = odd_len(rng);
+    while len > room {
+        len -= 2;
+    }
+    for i in 0..len {
+        edges.push((base + i, base + (i + 1) % len, 1));
+    }
+    let mut k = len;
+    for _ in 0..rng.below(3) {
+        let inner = *rng.pick(&[0usize, 0, 2, 2, 4]);
+        if k + inner > room {
+            continue;
+        }
+        let (a, b) = (base + rng.below(k), base + rng.below(k));
+        if a == b && inner == 0 {
+            continue;
+        }
+        let mut prev = a;
+        for _ in 0..inner {
+            edges.push((prev, base + k, 1));
+            prev = base + k;
+            k += 1;
+        }
+        edges.push((prev, b, 1));
+    }
+    k
+}
+
+/// Gallai-Edmonds shape: a small barrier A and more factor-critical pieces hanging on it than it can
+/// absorb (deficiency >= 2), optionally a perfectly matchable tail: several searches fail after
+/// having labelled every blossom, the same blossoms are met again from the next free root
+fn gen_barrier(rng: &mut Rng, max_n: usize) -> AG {
+    let mut edges = Vec::new();
+    let a = *rng.pick(&[1usize, 1, 1, 2, 2, 3]);
+    let k = a + 2 + rng.below(2);
+    let mut n = a;
+    let mut comps: Vec<(usize, usize)> = Vec::new();
+    for i in 0..k {
+        let left = k - i - 1; // pieces still to come need one node each
+        if n + left >= max_n {
+            break;
+        }
+        let room = max_n - n - left;
+        // the first piece is never a single node
+        let sz = factor_critical(rng, &mut edges, n, room, if i == 0 { 0 } else { 50 });
+        comps.push((n, sz));
+        n += sz;
+    }
+    for (i, &(b, sz)) in comps.iter().enumerate() {
+        let links = if sz == 1 { 1 } else { 1 + rng.below(2) };
+        for j in 0..links {
+            let av = if j == 0 && i < a { i } else { rng.below(a) };
+            edges.push((av, b + rng.below(sz), 1));
+        }
+    }
+    if a > 1 && rng.chance(40) {
+        edges.push((0, 1, 1));
+    }
+    if rng.chance(30) && n + 2 <= max_n {
+        // matchable tail on a barrier node
+        edges.push((rng.below(a), n, 1));
+        edges.push((n, n + 1, 1));
+        n += 2;
+    }
+    AG { directed: false, n, edges }
+}
+
+/// comb: a blossom-rich core (odd-ear graph or cactus on about half of the nodes) with a pendant leaf
+/// on most core nodes: the maximum matching wants the leaf edges, the greedy start follows the core, so
+/// many augmentations are needed and every search runs through the core's blossoms
+fn gen_comb(rng: &mut Rng, max_n: usize) -> AG {
+    let core_n = (max_n * 5 / 8 + rng.below(3)).max(3);
+    let core = if rng.chance(50) { gen_ears_core(rng, core_n) } else { gen_cactus_core(rng, core_n) };
+    let mut edges = core.edges;
+    let mut n = core.n;
+    let pct = *rng.pick(&[25u32, 40, 55, 70]);
+    for v in 0..core.n {
+        if n < max_n && rng.chance(pct) {
+            edges.push((v, n, 1));
+            n += 1;
+        }
+    }
+    AG { directed: false, n, edges }
+}
+
+/// sparse random (multi)graph with average degree 2..3
+fn gen_sparse_large(rng: &mut Rng, min_n: usize, max_n: usize) -> AG {
+    let n = min_n + rng.below(max_n - min_n + 1);
+    let m = n + rng.below(n / 2 + 1);
+    let simple = rng.chance(50);
+    let mut edges: Vec<(usize, usize, i64)> = Vec::new();
+    let mut tries = 0;
+    while edges.len() < m && tries < 10 * m {
+        tries += 1;
+        let (a, b) = (rng.below(n), rng.below(n));
+        if a == b && (simple || !rng.chance(20)) {
+            continue;
+        }
+        if simple && edges.iter().any(|&(x, y, _)| (x == a && y == b) || (x == b && y == a)) {
+            continue;
+        }
+        edges.push((a, b, 1));
+    }
+    AG { directed: false, n, edges }
+}
+
+fn gen_large_matching_graph(rng: &mut Rng, directed: bool, thorough: bool) -> (AG, &'static str) {
+    let max_n = if thorough { 18 } else { 16 };
+    let k = rng.weighted(&[12, 12, 16, 16, 26, 18]);
+    let piece = |rng: &mut Rng, k: usize, max_n: usize| -> AG {
+        match k {
+            4 => gen_barrier(rng, max_n),
+            0 => gen_cactus(rng, max_n),
+            1 => gen_flower(rng, max_n),
+            2 => gen_ears(rng, max_n),
+            5 => gen_comb(rng, max_n),
+            _ => gen_sparse_large(rng, max_n.min(10).max(max_n * 5 / 8), max_n),
+        }
+    };
+    let mut name = ["L-cactus", "L-flower", "L-ears", "L-sparse", "L-barrier", "L-comb"][k];
+    let mut ag = if rng.chance(30) {
+        name = "L-pair";
+        // two pieces side by side, joined by 0..2 bridges: independent augmentations
+        let k2 = rng.weighted(&[12, 12, 16, 16, 26, 18]);
+        let h = max_n / 2;
+        let g1 = piece(rng, k, h);
+        let g2 = piece(rng, k2, max_n - h);
+        let mut edges = g1.edges.clone();
+        edges.extend(g2.edges.iter().map(|&(a, b, w)| (a + g1.n, b + g1.n, w)));
+        for _ in 0..rng.below(3) {
+            edges.push((rng.below(g1.n), g1.n + rng.below(g2.n), 1));
+        }
+        AG { directed: false, n: g1.n + g2.n, edges }
+    } else {
+        piece(rng, k, max_n)
+    };
+    let p = random_perm(rng, ag.n);
+    ag = ag.relabel(&p);
+    for e in ag.edges.iter_mut() {
+        if rng.chance(50) {
+            *e = (e.1, e.0, e.2);
+        }
+    }
+    if rng.chance(10) && ag.n > 0 {
+        let a = rng.below(ag.n);
+        ag.edges.push((a, a, 1));
+    }
+    if rng.chance(15) && !ag.edges.is_empty() {
+        let e = ag.edges[rng.below(ag.edges.len())];
+        ag.edges.push(if rng.chance(50) { e } else { (e.1, e.0, e.2) });
+    }
+    rng.shuffle(&mut ag.edges);
+    ag.directed = directed;
+    (ag, name)
+}
+
 /// layered s-t network with cross and back edges (long augmenting paths, flow cancellation)
 fn gen_layered(rng: &mut Rng, max_n: usize, cap_hi: i64) -> AG {
     let layers = 1 + rng.below(3);
@@ -587,20 +912,48 @@ fn exhaustive_case(ctx: &mut Ctx, rng: &mut Rng, case: u64) -> bool {
     true
 }
 
+/// one generated matching case (shared by `run` and the measurement probe `c15probe.rs`)
+pub struct MatchingCase {
+    pub ag: AG,
+    pub family: &'static str,
+    pub directed: bool,
+}
+
+/// share (percent) of the non-exhaustive cases that come from the large blossom families
+const LARGE_PCT: u32 = 50;
+
+/// consumes `rng` exactly like `run` does up to and including the generation of the abstract graph;
+/// `None` = this case is a flow case (or an exhaustive thorough-tier case)
+pub fn gen_matching_case(thorough: bool, rng: &mut Rng, case: u64) -> Option<MatchingCase> {
+    if thorough && case < 1024 + 32768 + 4096 {
+        return None;
+    }
+    if rng.chance(LARGE_PCT) {
+        let directed = rng.chance(15);
+        let (ag, family) = gen_large_matching_graph(rng, directed, thorough);
+        return Some(MatchingCase { ag, family, directed });
+    }
+    if rng.chance(58) {
+        let directed = rng.chance(35);
+        let max_n = if thorough { 10 } else { 9 };
+        let (ag, family) = gen_matching_graph(rng, directed, max_n);
+        Some(MatchingCase { ag, family, directed })
+    } else {
+        None
+    }
+}
+
 pub fn run(ctx: &mut Ctx, case: u64) {
     let mut rng = Rng::for_case(ctx.seed, "C15", case);
     if ctx.tier_thorough && exhaustive_case(ctx, &mut rng, case) {
         return;
     }
-    if rng.chance(58) {
-        let directed = rng.chance(35);
-        let max_n = if ctx.tier_thorough { 10 } else { 9 };
-        let (ag, fam) = gen_matching_graph(&mut rng, directed, max_n);
-        ctx.raw(&format!("case {} matching {} d={}", case, fam, directed as u8));
-        if directed {
-            matching_case_ty::<Directed>(ctx, &mut rng, &ag)
+    if let Some(mc) = gen_matching_case(ctx.tier_thorough, &mut rng, case) {
+        ctx.raw(&format!("case {} matching {} d={}", case, mc.family, mc.directed as u8));
+        if mc.directed {
+            matching_case_ty::<Directed>(ctx, &mut rng, &mc.ag)
         } else {
-            matching_case_ty::<Undirected>(ctx, &mut rng, &ag)
+            matching_case_ty::<Undirected>(ctx, &mut rng, &mc.ag)
         }
     } else {
         ctx.raw(&format!("case {} flow", case));
